@@ -67,6 +67,7 @@ def run(ctx):
     if ctx.shard[0] == 0:
         _example(ctx)
     _corr(ctx)
+    _flat(ctx)
     _oracle(ctx)
 
 
@@ -338,6 +339,209 @@ def _corr(ctx):
             await async_case()
     asyncio.run(amain())
     asess.finish()
+
+
+# =========================================================================================== correspondence (Mf: cursor level)
+
+def _flat(ctx):
+    """Ties FalconModel/MultipartFlat.lean to the tree: (1) the harness's reference encoder (the one the oracle uses) and
+    Mf.encodeForm produce the same bytes; (2) the real sync and async parsers, with every part read to its end in one of
+    several ways, hand out exactly the (header dict, content) sequence and the outcome that Mf.parseAll computes on the flat
+    body - for reference-encoded, edited, truncated and messy bodies, limits at their thresholds, every transport chunking."""
+    import asyncio
+    import io
+    from runner import hx, Hang
+    from falcon.util.reader import BufferedReader
+    from falcon.asgi.reader import BufferedReader as ABR
+    from falcon.errors import MultipartParseError
+    from falcon.media.multipart import MultipartForm, MultipartParseOptions
+    from falcon.asgi.multipart import MultipartForm as AForm
+    rnd = ctx.rng
+    enc = ctx.session('reference encoder of the harness (_encode) = Mf.encodeForm, byte for byte', 'mpdriver')
+    fs = ctx.session('sync MultipartForm, parts read to their end = Mf.parseAll on the flat body (parts, contents, outcome)', 'mpdriver')
+    fa = ctx.session('async MultipartForm, parts read to their end = Mf.parseAll on the flat body (parts, contents, outcome)', 'mpdriver')
+
+    def hdrs(part):
+        return ';'.join(sorted(k.hex() + '=' + v.hex() for k, v in part._headers.items())) or '-'
+
+    def small_parts(b):
+        """parts with arbitrary CRLF-free header lines (also none, empty ones, near-miss names)"""
+        alph = b'ab\r\n-: ' + b
+        parts = []
+        for _ in range(rnd.choice([0, 1, 1, 2, 3])):
+            lines = []
+            for _l in range(rnd.choice([0, 0, 1, 1, 2, 3])):
+                lines.append(rnd.choice([b'', b'Content-Type: a/b', b'content-disposition: form-data; name="x"', b'CONTENT-TYPE: x', b'content-type:nospace',
+                                         b'Content-Transfer-Encoding: binary', b'X: y', b'Content-Type: 1: 2', bytes(rnd.choice(b'ab\r\n-: ') for _ in range(rnd.randint(0, 5)))]))
+            lines = [ln.replace(b'\r\n', b'\r') for ln in lines]
+            data = bytes(rnd.choice(alph) for _ in range(rnd.choice([0, 1, 2, 5, 9, 20])))
+            while b'\r\n--' + b in data + b'\r\n--' + b[:-1]:
+                data = data.replace(b'--', b'-')
+            parts.append({'lines': lines, 'block': CRLF.join(lines), 'data': data})
+        return parts
+
+    def gen_form():
+        """-> (boundary, parts or None, body, how it was made)"""
+        r = rnd.random()
+        if r < 0.5:
+            b = _boundary(rnd) if rnd.random() < 0.5 else rnd.choice([b'b', b'XY', b'-x', b'B0UND'])
+            parts = _make_parts(rnd, b, nmax=4, big=False)
+            for q in parts: q['lines'] = q['block'].split(CRLF)
+        else:
+            b = rnd.choice([b'b', b'XY', b'-x', b'ab', b'B0UND', b'-'])
+            parts = small_parts(b)
+        pre = rnd.choice([b'', b'', b'preamble\r\n', b'\r\n', b'-', b'--', b'x\r\n-- no\r\n'])
+        if b'--' + b in pre + b'--' + b[:-1]: pre = b''
+        tail = rnd.choice([b'', CRLF, CRLF, b'\r\nepilogue', b'epi', b'\r\n--' + b + b'\r\n\r\nx\r\n--' + b + b'--'])
+        return b, parts, pre, tail, _encode(parts, b, pre, tail)
+
+    def damage(body, b):
+        r = rnd.random()
+        if r < 0.4 or not body: return body, 'intact'
+        if r < 0.8:
+            bb = bytearray(body)
+            for _ in range(rnd.choice([1, 1, 2])):
+                if not bb: break
+                i = rnd.randrange(len(bb)); k = rnd.random(); c = rnd.choice(b'\r\n-:; ab' + b)
+                if k < 0.35: del bb[i]
+                elif k < 0.8: bb[i] = c
+                else: bb.insert(i, c)
+            return bytes(bb), 'edited'
+        return body[:rnd.randrange(len(body) + 1)], 'truncated'
+
+    def limits(parts):
+        maxhdr = 8192; maxcount = rnd.choice([64, 64, 0])
+        r = rnd.random()
+        if r < 0.25 and parts:
+            H = len(rnd.choice(parts)['block']); maxhdr = rnd.choice([max(0, H - 1), H, H + 1])
+        elif r < 0.35:
+            maxhdr = rnd.choice([0, 20, 40])
+        elif r < 0.6:
+            n = len(parts or []); maxcount = rnd.choice([max(0, n - 1), n, n + 1, 1, 2])
+        return maxhdr, maxcount
+
+    def full_read_sync(part):
+        how = rnd.choice(['read', 'read', 'pipe', 'loop', 'lines', 'until'])
+        s = part.stream
+        if how == 'read': return s.read()
+        if how == 'pipe':
+            dst = io.BytesIO(); s.pipe(dst); return dst.getvalue()
+        if how == 'loop':
+            k = rnd.choice([1, 2, 7, 64]); out = b''
+            while True:
+                c = s.read(k)
+                if not c: return out
+                out += c
+        if how == 'lines':
+            out = b''
+            while True:
+                ln = s.readline()
+                if not ln: return out
+                out += ln
+        out = b''
+        while True:
+            c = s.read_until(b'-'); d = s.read(1); out += c + d
+            if not c and not d: return out
+
+    async def full_read_async(part):
+        how = rnd.choice(['read', 'readall', 'pipe', 'loop', 'iter'])
+        s = part.stream
+        if how == 'read': return await s.read()
+        if how == 'readall': return await s.readall()
+        if how == 'pipe':
+            got = []
+
+            class Dst:
+                async def write(self, d): got.append(d)
+            await s.pipe(Dst()); return b''.join(got)
+        if how == 'loop':
+            k = rnd.choice([1, 2, 7, 64]); out = b''
+            while True:
+                c = await s.read(k)
+                if not c: return out
+                out += c
+        out = b''
+        async for c in s: out += c
+        return out
+
+    def render(got, outcome):
+        return ''.join(f'p {h} {hx(c)} ' for h, c in got) + outcome
+
+    def setup():
+        b, parts, pre, tail, body = gen_form()
+        body2, kind = damage(body, b)
+        if rnd.random() < 0.12:
+            body2 = _gen_messy_body(rnd, b); kind = 'messy'
+        maxhdr, maxcount = limits(parts)
+        dlen = len(b) + 4
+        chunk = rnd.choice([dlen, dlen, dlen + 1, dlen + 3, 2 * dlen, 64 + dlen, 8192])
+        opts = MultipartParseOptions(); opts.max_body_part_headers_size = maxhdr; opts.max_body_part_count = maxcount
+        return b, body2, kind, maxhdr, maxcount, chunk, opts, _chunk_plan(rnd, len(body2))
+
+    # (1) the encoder
+    for _ in range(ctx.n(1200, 16000)):
+        b, parts, pre, tail, body = gen_form()
+        fin = tail.startswith(CRLF); epi = tail[2:] if fin else tail
+        spec = ';'.join((','.join(hx(ln) for ln in q['lines']) if q['lines'] else '_') + '|' + hx(q['data']) for q in parts) or '-'
+        enc.case({'boundary': b, 'preamble': pre, 'tail': tail, 'parts': [(q['lines'], q['data']) for q in parts]})
+        enc.op(f"encode {hx(b)} {hx(pre)} {hx(epi)} {int(fin)} {spec}", hx(body))
+        ctx.seen(('enc', body, b), len(parts) > 0); ctx.count('flat_encode_parts', len(parts))
+    enc.finish()
+
+    # (2) the sync parser
+    for _ in range(ctx.n(2500, 36000)):
+        b, body, kind, maxhdr, maxcount, chunk, opts, plan = setup()
+        raw = _WsgiInput(_pieces(plan, body))
+        form = MultipartForm(BufferedReader(raw.read, len(body), chunk), b, None, opts)
+        got = []; outcome = None
+        try:
+            with alarm(3):
+                try:
+                    for part in form:
+                        got.append((hdrs(part), full_read_sync(part)))
+                    outcome = 'end'
+                except MultipartParseError as e:
+                    outcome = 'err ' + _ERR.get(e.description, 'other:' + str(e.description))
+        except Hang:
+            outcome = 'hang'
+        except Exception as e:  # noqa  (no such outcome in the model: a mismatch)
+            outcome = 'raised ' + type(e).__name__
+        fs.case({'body': body, 'boundary': b, 'kind': kind, 'max_headers_size': maxhdr, 'max_count': maxcount, 'chunk_size': chunk, 'chunk_plan': plan})
+        fs.op(f"parseflat {hx(body)} {hx(b)} {maxhdr} {maxcount}", render(got, outcome))
+        ctx.count('flat_sync_' + kind); ctx.count('flat_sync_outcome_' + outcome.replace(' ', '_'))
+        ctx.seen(('fs', body, b, maxhdr, maxcount, chunk, plan), bool(got) or outcome != 'end')
+    fs.finish()
+
+    # (3) the async parser
+    async def amain():
+        for _ in range(ctx.n(1500, 24000)):
+            b, body, kind, maxhdr, maxcount, chunk, opts, plan = setup()
+            pieces = _pieces(plan, body)
+
+            async def gen():
+                for c in pieces: yield c
+            form = AForm(ABR(gen(), chunk), b, None, opts)
+            got = []; outcome = None
+
+            async def go():
+                async for part in form:
+                    got.append((hdrs(part), await full_read_async(part)))
+            try:
+                with alarm(3):
+                    try:
+                        await asyncio.wait_for(go(), 30); outcome = 'end'
+                    except MultipartParseError as e:
+                        outcome = 'err ' + _ERR.get(e.description, 'other:' + str(e.description))
+            except (Hang, asyncio.TimeoutError):
+                outcome = 'hang'
+            except Exception as e:  # noqa
+                outcome = 'raised ' + type(e).__name__
+            fa.case({'body': body, 'boundary': b, 'kind': kind, 'max_headers_size': maxhdr, 'max_count': maxcount, 'chunk_size': chunk, 'chunk_plan': plan})
+            fa.op(f"parseflat {hx(body)} {hx(b)} {maxhdr} {maxcount}", render(got, outcome))
+            ctx.count('flat_async_' + kind); ctx.count('flat_async_outcome_' + outcome.replace(' ', '_'))
+            ctx.seen(('fa', body, b, maxhdr, maxcount, chunk, plan), bool(got) or outcome != 'end')
+    asyncio.run(amain())
+    fa.finish()
 
 
 # =========================================================================================== oracle: reference encoder
